@@ -12,7 +12,20 @@ struct W8 { u8 v; NOP_VALUE(W8, v); };
 template <> struct Meta<W8> : MetaValue<W8, F<W8, u8, &W8::v>> {};
 #endif
 
+struct Wb { bool v; NOP_VALUE(Wb, v); };
+template <> struct Meta<Wb> : MetaValue<Wb, F<Wb, bool, &Wb::v>> {};
+
 // "the same value" across fungible entry types
+static inline bool same_val(const bool& a, const bool& b) { return a == b; }
+static inline bool same_val(const bool& a, const Wb& b) { return a == b.v; }
+static inline bool same_val(const Wb& a, const bool& b) { return a.v == b; }
+static inline bool same_val(const Wb& a, const Wb& b) { return a.v == b.v; }
+static inline bool same_val(const float& a, const float& b) { return Meta<float>::eq(a, b); }
+static inline bool same_val(const std::pair<bool, bool>& a, const std::pair<bool, bool>& b) { return a == b; }
+static inline bool same_val(const std::pair<bool, bool>& a, const std::tuple<bool, bool>& b) { return a.first == std::get<0>(b) && a.second == std::get<1>(b); }
+static inline bool same_val(const std::tuple<bool, bool>& a, const std::pair<bool, bool>& b) { return same_val(b, a); }
+static inline bool same_val(const std::tuple<bool, bool>& a, const std::tuple<bool, bool>& b) { return a == b; }
+static inline bool same_val(const nop::Optional<float>& a, const nop::Optional<float>& b) { return a.empty() == b.empty() && (a.empty() || Meta<float>::eq(a.get(), b.get())); }
 static inline bool same_val(const u8& a, const u8& b) { return a == b; }
 static inline bool same_val(const u8& a, const W8& b) { return a == b.v; }
 static inline bool same_val(const W8& a, const u8& b) { return a.v == b; }
@@ -35,8 +48,9 @@ template <typename A, typename B> static bool same_entry(const A& a, const B& b)
 }
 
 // write w and a sentinel, read as r, read the sentinel back: the reader ends positioned exactly after the table
-#define EVO_ROUNDTRIP(w, r, sent)                                              \
-  std::uint8_t buf[32] = {};                                                   \
+#define EVO_ROUNDTRIP(w, r, sent) EVO_ROUNDTRIP_N(w, r, sent, 32)
+#define EVO_ROUNDTRIP_N(w, r, sent, CAP)                                       \
+  std::uint8_t buf[CAP] = {};                                                   \
   Wr<PBW> wr(buf, sizeof buf);                                                 \
   { auto s1 = wr.write(w); vassert(!!s1, 1); }                                 \
   const std::size_t n1 = wr.produced();                                        \
